@@ -23,6 +23,67 @@ def in_lock(fi, node):
     return lexically_inside_with(fi.node, node, lambda e, w: ast.unparse(e) == "self._lock")
 
 
+def final_connect_model(ctx, repo, rule):
+    """The last link of the blocking handshake by interpretation: a GeckoSpa built by its own constructor (threads, locks
+    and the OS socket are stand-ins) with a model structure.  One engine pass (_loop_func) before the first complete
+    block builds nothing; the first pass after it builds the accessors from the pair of table classes the FILES step
+    stored, tells the facade (on_connected) once and makes is_connected read True; later passes do nothing more."""
+    from ..absint import Interp, Native, Obj, PyRaise, Undecided
+    from .c16 import build_instance
+    it = Interp(repo, max_depth=12)
+    spa = build_instance(repo, it, "GeckoSpa")
+    built, told = [], []
+
+    class _Any(dict):
+        def __missing__(self, k):
+            return Obj(None, {"value": 1, "tag": k}, name=f"acc<{k}>")
+
+        def __contains__(self, k):
+            return True
+    struct = Obj(None, {"had_at_least_one_block": False, "accessors": _Any(), "build_accessors": Native(lambda a, k: built.append(tuple(a)), "build_accessors")}, name="struct")
+    cfg_c, log_c = Obj(None, name="config-table"), Obj(None, name="log-table")
+    it.setattr(spa, "struct", struct)
+    it.setattr(spa, "new_config_class", cfg_c)
+    it.setattr(spa, "new_log_class", log_c)
+    it.setattr(spa, "new_pack_class", Obj(None, {"type": 7}, name="pack-table"))
+    it.setattr(spa, "on_connected", Native(lambda a, k: told.append(a[0] if a else None), "on_connected"))
+    it.attr_hook = lambda _i, b_, a_: (True if (b_ is spa and a_ == "isopen") else NotImplemented)
+    it.call_hook = lambda _i, node, callee, a_, k_: (100.0 if getattr(callee, "name", "") == "time.monotonic" else NotImplemented)
+    for k_, v_ in list(spa.attrs.items()):
+        if "started" in k_ and v_ is None:
+            spa.attrs[k_] = 99.0     # the connection attempt began a second ago (is_connected measures the handshake's age)
+    lf = repo.func("GeckoSpa._loop_func")
+
+    def one_pass():
+        try:
+            it.steps = 0
+            it.call(lf, spa, [])
+            return None
+        except PyRaise as e:
+            return e.what
+        except Undecided as e:
+            raise AnalysisError(f"{lf.qual} on the model connection: {e}")
+
+    def connected():
+        try:
+            return it.getattr(spa, "is_connected")
+        except (PyRaise, Undecided) as e:
+            return f"<{e}>"
+    r0 = one_pass()
+    ctx.ob(rule, "GeckoSpa._loop_func::nothing-before-the-first-block", r0 is None and not built and not told and connected() is False,
+           f"an engine pass before the first complete status block: outcome {r0!r}, accessors built {len(built)} time(s), facade told {len(told)} time(s), is_connected {connected()!r}", lf.loc)
+    struct.attrs["had_at_least_one_block"] = True
+    r1 = one_pass()
+    ok1 = r1 is None and len(built) == 1 and len(built[0]) == 2 and built[0][0] is cfg_c and built[0][1] is log_c and told == [spa] and connected() is True
+    ctx.ob(rule, "GeckoSpa._loop_func->_final_connect", ok1,
+           f"the first engine pass after the first complete block: outcome {r1!r}, build_accessors calls {[[getattr(x, 'name', x) for x in b] for b in built]}, facade told {len(told)} time(s), is_connected {connected()!r} - "
+           f"expected the accessors built once from the stored (config, log) table pair, on_connected(spa) once, is_connected True", lf.loc,
+           sample={"rule": rule, "built": len(built), "told": len(told)})
+    r2 = one_pass()
+    ctx.ob(rule, "GeckoSpa._final_connect::completes", r2 is None and len(built) == 1 and len(told) == 1 and connected() is True,
+           f"a later engine pass: outcome {r2!r}, accessors built {len(built)} time(s) in all, facade told {len(told)} time(s): the connection must be finished exactly once", lf.loc)
+
+
 def check(ctx):
     repo = Repo()
     ctx.rule("R1", "FIFO: the send queue's only producer appends at the tail, its only consumer removes index 0, both under the lock")
@@ -46,7 +107,8 @@ def check(ctx):
             if isinstance(n, ast.Call) and receiver(n) in ("self._send_handlers", "self._receive_handlers") and call_name(n) in ("append", "insert", "extend", "pop", "remove", "clear"):
                 n_mut += 1
                 ctx.ob("R1", f"{fi.qual}::{receiver(n).split('.')[-1]}.{call_name(n)}::under-lock", in_lock(fi, n), f"{fi.qual}: `{ast.unparse(n)}` outside `with self._lock`", loc(fi, n))
-    ctx.floor("R1", "queue mutations under the lock", n_mut, 2)
+    if not n_mut:
+        ctx.note("no direct `self._send_handlers / _receive_handlers .<mutator>(...)` call in the socket class (the queues are reached through a helper): lock discipline is decided by the engine model's lock scenarios only")
     ps = repo.own_method(SOCK, "_process_send_requests")
     dr = repo.own_method(SOCK, "dispatch_recevied_data")
 
@@ -212,20 +274,10 @@ def check(ctx):
         ctx.ob("R4", f"GeckoSpa._on_config_received::{attr}::built-before-status-request", ok,
                f"GeckoSpa._on_config_received starts the status-block transfer on a path where `self.{attr}` has not been built: if building it fails afterwards the handler exception is contained, "
                f"but the completed transfer then makes the engine thread call _final_connect, which raises on `{attr} is None` outside any try - the engine stops", ocr.loc)
-    lf = repo.func("GeckoSpa._loop_func")
-    glf = cfg_of(lf)
-    fcn = calls_named(glf, "_final_connect")
-    ok = len(fcn) == 1
-    if ok:
-        facts = glf.guard_atoms(fcn[0][0])
-        ok = ("self.struct.had_at_least_one_block", True) in facts and ("self._is_connected", False) in facts
-    ctx.ob("R7", "GeckoSpa._loop_func->_final_connect", ok, "_loop_func does not finish the connection exactly once after the first complete block", lf.loc)
+    final_connect_model(ctx, repo, "R7")
     sob = repo.func("GeckoStructure._on_status_block_received")
     ok = any(isinstance(n, ast.Assign) and ast.unparse(n.targets[0]) == "self.had_at_least_one_block" and repo.try_fold(n.value) is True for n in ast.walk(sob.node))
     ctx.ob("R7", "GeckoStructure::marks-first-block", ok, "the structure never reports its first complete block", sob.loc)
-    fcf = repo.func("GeckoSpa._final_connect")
-    ok = "self.struct.build_accessors" in ast.unparse(fcf.node) and "self._is_connected = True" in ast.unparse(fcf.node)
-    ctx.ob("R7", "GeckoSpa._final_connect::completes", ok, "_final_connect does not build the accessors and mark the spa connected", fcf.loc)
     ctx.rule("R10", "a registration is never lost to the clean-up: _cleanup_handlers, interpreted on an engine built by its own constructor with a model lock, once per lock-release point it passes, with another thread registering a handler at exactly that point - afterwards the newcomer is still registered (the next datagram reaches it) and the finished handler is gone")
     from ..enginemodel import registration_survives_cleanup
     registration_survives_cleanup(ctx, repo, "R10")
